@@ -208,7 +208,8 @@ class GuardMap:
                 a = self.fn.args
                 params = {x.arg for x in a.args + a.kwonlyargs + a.posonlyargs}
             out: Dict[str, ast.AST] = {}
-            SAFE = ("startswith", "endswith", "get", "strip", "lower", "keys", "items", "values", "count")
+            SAFE = ("startswith", "endswith", "get", "strip", "lower", "keys", "items", "values", "count", "intersection", "isdisjoint", "issubset", "issuperset", "difference",
+                    "union", "split", "rstrip", "lstrip", "upper", "isdigit", "isspace", "match", "search", "fullmatch", "find", "index", "join")
             for n in walk_no_nested(self.fn):
                 if isinstance(n, ast.Assign) and len(n.targets) == 1 and isinstance(n.targets[0], ast.Name):
                     x = n.targets[0].id
@@ -221,7 +222,7 @@ class GuardMap:
                             bad = True
                         if isinstance(m, ast.Call):
                             nm = m.func.id if isinstance(m.func, ast.Name) else (m.func.attr if isinstance(m.func, ast.Attribute) else None)
-                            if not ((isinstance(m.func, ast.Name) and nm in ("bool", "len", "tuple", "str", "int")) or (isinstance(m.func, ast.Attribute) and nm in SAFE)):
+                            if not ((isinstance(m.func, ast.Name) and nm in ("bool", "len", "tuple", "str", "int", "set", "frozenset", "isinstance", "any", "all", "min", "max", "sorted")) or (isinstance(m.func, ast.Attribute) and nm in SAFE)):
                                 bad = True
                         if isinstance(m, ast.Name) and isinstance(m.ctx, ast.Load) and stores.get(m.id, 0) > 1:
                             bad = True
